@@ -66,12 +66,12 @@ def u_t(draw, dyadic=False, comparison=False):
 
 
 @st.composite
-def config(draw, family, dyadic=False, max_N=60, min_N=1):
+def config(draw, family, dyadic=False, max_N=60, min_N=1, ut=None, dyadic_g=False):
     """One NonnegMean configuration of the given family."""
     fam = family
     inf = fam.endswith("-inf") or fam in ("km", "kw")
     base = fam[:-4] if fam.endswith("-inf") else fam
-    u, t = draw(u_t(dyadic=dyadic, comparison=(base == "alpha-optcomp")))
+    u, t = ut if ut is not None else draw(u_t(dyadic=dyadic, comparison=(base == "alpha-optcomp")))
     N = None if inf else draw(st.integers(min_N, max_N))
     kw = {}
     cfg = {"family": fam, "estim": None, "bet": None, "N": N, "u": u, "t": t, "random_order": True}
@@ -122,7 +122,7 @@ def config(draw, family, dyadic=False, max_N=60, min_N=1):
         cfg["random_order"] = draw(st.sampled_from([True, True, False]))
     else:
         raise ValueError(fam)
-    if dyadic:
+    if dyadic or dyadic_g:
         for k in ("g",):
             if k in kw:
                 kw[k] = round(kw[k] * 8) / 8 if kw[k] < 0.99 else 0.875
